@@ -148,7 +148,9 @@ Proof.
   { unfold cex_t. simpl. repeat constructor; simpl; intros H;
       repeat (destruct H as [H|H]; [discriminate H|]); exact H. }
   intros q H. cbv -[inline_id] in H. inversion H; subst q. clear H.
-  assert (N : Nat.eqb 3 (inline_id 4) = false).
+  assert (N4 : Nat.eqb 3 (inline_id 4) = false).
   { apply Nat.eqb_neq. unfold inline_id. lia. }
-  remember (inline_id 4) as X. unfold pcheck_fn. simpl. simpl in N. rewrite N. reflexivity.
+  revert N4. generalize (inline_id 4). generalize (inline_id 1).
+  intros X1 X4 N4. unfold pcheck_fn. simpl. simpl in N4. rewrite N4.
+  rewrite !andb_false_r. reflexivity.
 Qed.
